@@ -37,4 +37,28 @@ var checkSpecs = map[string]CheckSpec{
 		{Pkg: "cors", Entry: "zzH_C16_api", Reach: []string{"failed", "succeeded"}},
 	}, Bounds: map[string]string{"quick": scenarioBoundsQuick + " (preflights only, debug off)", "thorough": scenarioBoundsThorough + " (preflights only, debug off)"}, Outside: scenarioOutside,
 		Explain: "failed preflight: 403 and no Access-Control-* header; successful preflight: every value of every Access-Control-* header is *, true, the configured max-age, `*,authorization` in its documented case, or byte-equal to a value the request supplied"},
+	"C01": {ID: "C01", Harnesses: []HarnessSpec{
+		{Pkg: "cors", Entry: "zzH_C01_api", Reach: []string{"allowed", "not-allowed"}},
+	}, Bounds: map[string]string{
+		"quick":    "every ordered selection with repetition of 1-2 patterns from a pool of 6 and of 3 patterns from its first 4 (exact, *.sub, shared non-label suffix, *.b:*, fixed port, scheme that is a prefix), concrete patterns built by the real NewMiddleware; one Origin value of <=13 fully symbolic bytes",
+		"thorough": "pool of 16 (adds bare TLD, :*, trailing dot, deeper subdomain, IPv6, IPv4, longer scheme, second shared-suffix host, *.sub with port, port 65535), 3 patterns from its first 8; Origin <=16 symbolic bytes",
+	}, Outside: "more than 3 patterns; patterns outside the pool (hosts longer than the pool's, 253-byte hosts: see C13); origins longer than the bound; bracketed non-IP hosts (the request-side parser is documented as lenient; not judged)",
+		Explain: "ACAO present <=> some listed pattern denotes the symbolic origin, with the denotation written by hand from the documentation (zzDenotes); order- and multiplicity-independence follow because every ordered selection is explored against the same symmetric oracle"},
+	"C14": {ID: "C14", Harnesses: []HarnessSpec{
+		{Pkg: "cors", Entry: "zzH_C14_api", Reach: []string{"approved", "rejected"}},
+		{Pkg: "headers", Entry: "zzH_C14_unit", Reach: []string{"approved", "rejected"}, Secondary: true},
+		{Pkg: "headers", Entry: "zzH_C14_empties", Reach: []string{"empties", "over-budget"}, Secondary: true},
+		{Pkg: "headers", Entry: "zzH_C14_complete", Reach: []string{"complete"}, Secondary: true},
+	}, Bounds: map[string]string{
+		"quick":    "allowed sets {a} (1 line x 6 symbolic bytes), {a,ab,b} (2 lines x 4), {a,b,c} (1 x 5), {ab,b}/{x-a,x-b} (1 x 5): every line fully symbolic, longer than the scan window where the set's longest name is short; empty-element budget: 0-20 leading commas distributed by the solver over 1-3 lines plus a 3-byte symbolic tail; completeness: every subset of each of 6 sets, with every padding / empty-element / line-break perturbation",
+		"thorough": "9 shapes up to 3 lines x 4 bytes, 2 lines x 5 bytes, 1 line x 7 bytes over 6 sets",
+	}, Outside: "sets other than the six; lines longer than the bounds; more than 3 lines",
+		Explain: "headers.Check (unit) and the preflight verdict (API, debug off) are compared with zzRefCheck, a literal transcription of C14's statement; soundness and completeness are corollaries of the equality, completeness is also asserted constructively"},
+	"C19": {ID: "C19", Harnesses: []HarnessSpec{
+		{Pkg: "cfgerrors", Entry: "zzH_C19_unit", Reach: []string{"early-exit", "exhausted", "three-leaves"}},
+	}, Bounds: map[string]string{
+		"quick":    "join trees of depth <=2: errors.Join of 1-3 children, each nil / leaf / join of 1-2 (nil / leaf), at most 5 leaves, plus the bare leaf; break position a symbolic 64-bit integer",
+		"thorough": "depth <=3, at most 6 leaves",
+	}, Outside: "deeper or wider trees; a nil top-level error; error types with their own Unwrap() []error other than errors.Join's",
+		Explain: "the yielded sequence (range-over-func form and direct call with an asserting yield function) must be the prefix of the independently recorded left-to-right leaf list cut at the symbolic break position; tree shapes are enumerated by forking, the break position is decided by the solver"},
 }
